@@ -8,6 +8,7 @@ func init() {
 		Title: "Variables are block scoped, type stable, and 'loop' is reserved",
 		Rules: []string{
 			"R-ERRDROP: every error-typed result on the render path (in particular of Env.Set) is consumed",
+			"R-SCOPE: every nested block (@if branches, loop bodies and their @else, component block) is evaluated in NewEnclosedEnv(env); only NewEnv/Set/SetLoopVar write a scope and only their own; Set's store is dominated by the reserved-name test and the chain-wide type test; Get falls back to the enclosing scope exactly when the name is absent; the loop object is bound on the loop's own scope; data is bound through Set",
 		},
 		Decided:     "TODO",
 		NotDecided:  "TODO",
@@ -22,6 +23,8 @@ func init() {
 				}
 			}
 			m.RunErrDrop(s, "R-ERRDROP", fns)
+			m.RunScope(s, "R-SCOPE")
+			s.RequireMin("R-SCOPE", 14, "8 block evaluations in fresh scopes, component binding, store writers, Set checks, Get fallback, loop object scope, data binding")
 		},
 	})
 }
